@@ -4,11 +4,11 @@ import json, struct, collections
 READY = True
 
 META = {
-    "technique": "Lean 4 proof (serde data model by shape: de ∘ ser = id; handle registry; JSON writer for whole values in all formatter styles + independent JSON reader: read ∘ tojson ∘ write = id; HTML-safe alphabet) + differential runs of a shape-driven Serialize/DeserializeSeed pair, derived types, and three independent JSON readers (Python json, serde_json, the Lean reader)",
+    "technique": "Lean 4 proof (serde data model by shape: de ∘ ser = id; handle registry; JSON writer for whole values in all formatter styles + independent JSON reader: read ∘ tojson ∘ write = id; HTML-safe alphabet) + differential runs of a shape-driven Serialize/DeserializeSeed pair, derived types, and three independent JSON readers (Python json, serde_json, the Lean reader); second generation: serde's buffering read path, Serde<T> call arguments, Value as deserialisation target, serde's std-type impls, serde_json's own JSON of the same datum as reference, an exhaustive family for the tojson post-processing, regenerated method / arm tables of both serde impls",
     "category": "proof",
-    "text": "Kernel-checked theorems about an executable model of value/serialize.rs (ValueSerializer), value/deserialize.rs (Deserializer for Value driven by the derived visitor of a shape, including serde's lenient primitive conversions) and the value-handle registry: every well-formed datum of every shape (bools, 8..64-bit integers, f32/f64 bit patterns, chars, strings, bytes, options of non-optional payloads, unit, seqs, tuples, maps, unit/newtype/tuple/field structs, enums with unit/newtype/tuple/struct variants, nested arbitrarily) deserialises from its serialisation to itself; de decides (ok/error) every object-free value for every shape; an embedded Value comes back identical whatever the registry held before, and the two-tier handle registry (its fast-path condition regenerated from the source) refines a finite map for every sequence of inserts and removes. For JSON: the text of every value that has a JSON image (nested arrays/objects, keys by string form, none/undefined/non-finite floats null, bytes as numbers, integers of every width, finite floats by ryu's shortest text) written by serde_json's compact writer, the JinjaJsonFormatter, or the pretty writer with any indent, and post-processed by tojson (table extracted from filters.rs) or not (auto-escaping), is read back to exactly that image by an independent strict JSON reader; tojson output never contains < > & '; towards an external serializer a value announces a sequence length only when exactly that many elements follow (serde's contract, which serde_json relies on), for lists, tuples, one-shot iterators, make_iterable adapters and custom objects with every Enumerator answer. The model is tied to /repo by running the same random shapes/data through the real Serializer/Deserializer and through the model, and by predicting the real tojson / auto-escape output character for character (member order of the BTreeMap and IndexMap builds, float text), which is also parsed by Python's json (bit-exact floats) and serde_json.",
+    "text": "Kernel-checked theorems about an executable model of value/serialize.rs (ValueSerializer), value/deserialize.rs (Deserializer for Value driven by the derived visitor of a shape, including serde's lenient primitive conversions) and the value-handle registry: every well-formed datum of every shape (bools, 8..64-bit integers, f32/f64 bit patterns, chars, strings, bytes, options of non-optional payloads, unit, seqs, tuples, maps, unit/newtype/tuple/field structs, enums with unit/newtype/tuple/struct variants, nested arbitrarily) deserialises from its serialisation to itself; de decides (ok/error) every object-free value for every shape; an embedded Value comes back identical whatever the registry held before, and the two-tier handle registry (its fast-path condition regenerated from the source) refines a finite map for every sequence of inserts and removes. For JSON: the text of every value that has a JSON image (nested arrays/objects, keys by string form, none/undefined/non-finite floats null, bytes as numbers, integers of every width, finite floats by ryu's shortest text) written by serde_json's compact writer, the JinjaJsonFormatter, or the pretty writer with any indent, and post-processed by tojson (table extracted from filters.rs) or not (auto-escaping), is read back to exactly that image by an independent strict JSON reader; tojson output never contains < > & '; towards an external serializer a value announces a sequence length only when exactly that many elements follow (serde's contract, which serde_json relies on), for lists, tuples, one-shot iterators, make_iterable adapters and custom objects with every Enumerator answer. The model is tied to /repo by running the same random shapes/data through the real Serializer/Deserializer and through the model, and by predicting the real tojson / auto-escape output character for character (member order of the BTreeMap and IndexMap builds, float text), which is also parsed by Python's json (bit-exact floats) and serde_json. Further theorems: no byte of the UTF-8 encoding of tojson output is one of < > & '; which map keys have a JSON string form and which make the serialiser refuse; the deserializer model cannot tell a value from the copy serde's buffering (untagged / internally tagged enums, flatten) makes of it, so the round trip holds through the buffer; a datum handed to a function / filter / test / method parameter of type Serde<T> arrives as the original (never taken from keyword arguments or from nothing), for Option<Serde<T>> whenever T cannot serialise to none; plain data read back into a Value (impl Deserialize for Value) is its normal form (undefined as none, no safe flag, tuples as lists) and keeps its JSON image; IndexMap build: new keys last, existing keys keep their position; every method of serde's Serializer / Deserializer traits (regenerated from the locked serde_core) is accounted for in both impls (explicit, forwarded to deserialize_any, or the trait's unsupported default for 128-bit integers) and the scalar arms of ValueSerializer, the arms of deserialize_any and of impl Serialize for Value are the ones the model transcribes.",
     "design_ref": "DESIGN.md §3 C16",
-    "level_note": "Trusted: Lean kernel; hand transcription of serialize.rs/deserialize.rs/ValueHandleRegistry into MJ/Model/Serde.lean and of serde_json's writer/formatters, ryu's format64 layout and Value::cmp on map keys into MJ/Model/Json.lean (validated by the correspondence streams, sampled; every emitted text is predicted exactly); serde's own primitive/Option/seq/map visitors and derive output are represented by the harness' Seed visitors (and by 13 really derived types). Not proved: that the printed float token denotes the same double (checked bit-exactly against Python's correctly rounded reader on every float case).",
+    "level_note": "Trusted: Lean kernel; hand transcription of serialize.rs/deserialize.rs/ValueHandleRegistry into MJ/Model/Serde.lean and of serde_json's writer/formatters, ryu's format64 layout and Value::cmp on map keys into MJ/Model/Json.lean (validated by the correspondence streams, sampled; every emitted text is predicted exactly); serde's own primitive/Option/seq/map visitors and derive output are represented by the harness' Seed visitors (and by 13 really derived types + 4 families of std types); serde's Content buffering is represented by `normV` (validated by the buf stream on round-trip data, not transcribed). Not proved: that the printed float token denotes the same double (checked bit-exactly against Python's correctly rounded reader on every float case).",
 }
 
 SITE_TOP = lambda case: case.split()[1] if len(case.split()) > 1 else "?"
@@ -192,8 +192,8 @@ def check_lines(r, lines, model):
             ty = case.split()[1]
             res = f[1]
             r.hist["derivedx"][ty + ":" + res.split(":")[0]] += 1
-            if ty in ("Wide", "OptOpt"):
-                if res.startswith("panic"):
+            if ty in ("Wide", "OptOpt", "Borrowed"):
+                if res.startswith("panic") or (ty == "Borrowed" and res.startswith("ne")):
                     r.oracle_failure(case, res[:300], "derivedx:" + ty + ":panic")
             elif res != "ok":
                 r.oracle_failure(case, res[:400], "derivedx:" + ty + ":" + res.split(":")[0])
@@ -300,7 +300,9 @@ def check_lines(r, lines, model):
             r.hist["lde_result"][f[1].split(" ")[0]] += 1
             if f[1] == "panic" or f[1].startswith("owned/"):
                 r.oracle_failure(case, "deserialising from a lazily produced value: " + f[1][:200], "lde:" + f[1].split(" ")[0])
-            if m is not None and m[0] != f[1]:
+            if m is not None and m[0] == "?":
+                r.hist["model"]["unmodelled:lde"] += 1
+            elif m is not None and m[0] != f[1]:
                 r.model_disagreement(case, f[1], m[0])
             elif m is not None:
                 r.hist["model"]["agree:lde"] += 1
@@ -330,6 +332,108 @@ def check_lines(r, lines, model):
                 if f[3].startswith("contract:bad"):
                     r.oracle_failure(case, "Value::serialize broke the serde length contract: " + f[3][13:], "ser:contract:seq")
             r.hist["tpl_result"]["ok"] += 1
+        elif stream == "buf":
+            # serde's buffering read path (untagged by value / by reference after a failed alternative, flatten,
+            # internally tagged, adjacently tagged): the datum must come back through each of them
+            r.count(case, len(case.split()) > 4)
+            top = SITE_TOP(case)
+            for name, res in zip(("untagged", "untagged_ref", "flatten", "tagged", "adjacent"), f[1:6]):
+                r.hist["buf_" + name]["n/a" if res == "-" else "ok" if res.startswith("ok ") and "(want" not in res else "bad"] += 1
+                if res != "-" and (not res.startswith("ok ") or "(want" in res):
+                    r.oracle_failure(case, f"through serde's {name} buffering the datum came back as [{res[:200]}]", f"buf:{name}:{top}")
+            if m is not None:
+                if m[0] == "bad-case":
+                    r.broken.append("model driver could not read case " + case[:120])
+                elif m[0] == "?":
+                    r.hist["model"]["unmodelled:buf"] += 1
+                elif m[0] != f[1].split(" (want")[0]:
+                    r.model_disagreement(case, f[1][:200], m[0][:200])
+                else:
+                    r.hist["model"]["agree:buf"] += 1
+        elif stream == "arg":
+            # `Serde<T>` as the type of a call argument
+            form = case.split()[1]
+            r.hist["arg_form"][form] += 1
+            if f[1] == "skip":
+                r.count(case, False)
+                r.hist["arg_result"]["not-expressible"] += 1
+                continue
+            r.count(case, True)
+            canon, seen, tail, verdict = f[1], f[2], f[3], f[4]
+            r.hist["arg_result"][verdict] += 1
+            if verdict != "eq":
+                r.oracle_failure(case, f"argument {canon[:80]} converted through Serde<T> ({form}): got [{seen[:160]}] then {tail}", f"arg:{form}:{tail.split(':')[0]}")
+            if m is not None:
+                if m[0] == "bad-case":
+                    r.broken.append("model driver could not read case " + case[:120])
+                elif m[1] == "?":
+                    r.hist["model"]["unmodelled:arg"] += 1
+                else:
+                    entries = [x for x in seen.split(" | ") if x]
+                    absent = form == "opt" and canon == "none"
+                    if m[0] != canon or (not absent and any(e != m[1] for e in entries)) or (absent and entries != ["absent"]):
+                        r.model_disagreement(case, canon[:100] + " | " + seen[:160], m[0][:100] + " | " + m[1][:160])
+                    else:
+                        r.hist["model"]["agree:arg"] += 1
+        elif stream == "vv":
+            # `Value` itself as the target: from a value (owned / borrowed), as a field of a derived type, from JSON text
+            mode = case.split()[1]
+            got, want = f[1], f[2]
+            if got.startswith("skip:") or any(t.startswith("Zl") for t in case.split()):
+                r.count(case, False)
+                r.hist["vv_result"]["skipped"] += 1
+                continue
+            r.count(case, len(case.split()) > 3)
+            r.hist["vv_result"]["ok" if got == want else "differs"] += 1
+            if got != want:
+                r.oracle_failure(case, f"read back into a Value ({mode}): got [{got[:160]}], expected [{want[:160]}]", f"vv:{mode}:{got.split(' ')[0][:1]}")
+            if m is not None and m[0] not in ("-",):
+                if m[0] == "bad-case":
+                    r.broken.append("model driver could not read case " + case[:120])
+                elif m[0] == "?":
+                    r.hist["model"]["unmodelled:vv"] += 1
+                elif m[0] != got:
+                    r.model_disagreement(case, got[:200], m[0][:200])
+                else:
+                    r.hist["model"]["agree:vv"] += 1
+        elif stream == "sjson":
+            # a serialised datum printed as JSON against serde_json's own JSON of the datum
+            r.count(case, len(case.split()) > 5)
+            mode = case.split()[1]
+            res = f[1].split(":")[0]
+            r.hist["sjson_result"][res] += 1
+            # (`only-engine`: serde_json refuses the datum itself - an `Option` as map key - while the value's key has a
+            # string form; the text was valid JSON)
+            if res not in ("same", "both-refuse", "only-engine"):
+                detail = f[1]
+                if res in ("differs", "invalid"):
+                    parts = f[1].split(":", 2)
+                    detail = res + " engine=" + bytes.fromhex(parts[1]).decode("utf-8", "replace")[:160] + (" serde_json=" + bytes.fromhex(parts[2]).decode("utf-8", "replace")[:160] if len(parts) > 2 else "")
+                r.oracle_failure(case, "JSON of a serialised datum vs serde_json's JSON of the datum: " + detail[:400], f"sjson:{mode}:{res}")
+        elif stream == "pp":
+            # exhaustive family for the post-processing of tojson
+            n = int(f[1]) if f[1].isdigit() else 0
+            r.count(case, True)
+            r.extra["pp_strings"] = r.extra.get("pp_strings", 0) + n
+            if f[3] != "ok":
+                parts = f[3].split(":")
+                what = parts[1] if len(parts) > 1 else "?"
+                inp = bytes.fromhex(parts[2]).decode("utf-8", "replace") if len(parts) > 2 else "?"
+                outp = bytes.fromhex(parts[3]).decode("utf-8", "replace") if len(parts) > 3 else "?"
+                site = "tojson:alphabet" if what == "alphabet" else "pp:" + what
+                r.oracle_failure(case + " input=" + (parts[2] if len(parts) > 2 else "?"), f"tojson of the string {inp!r} gave {outp!r} ({what})", site)
+            if m is not None:
+                if m[0] != f[1] or m[1] != f[2]:
+                    r.model_disagreement(case, f[1] + " " + f[2], "\t".join(m))
+                else:
+                    r.hist["model"]["agree:pp"] += 1
+        elif stream == "warm":
+            r.count(case, True)
+            r.hist["warm"][f[1].split(":")[0]] += 1
+            if f[1] != "same":
+                n = int(case.split()[1])
+                cls = "lt256" if n < 256 else "lt65536" if n < 65536 else "ge65536"
+                r.oracle_failure(case, f"after {n} embedded values on the thread: {f[1][:200]}", "warm:" + cls)
         else:
             r.broken.append("unknown harness line: " + line[:80])
         if i % 1500 == 0:
@@ -337,14 +441,22 @@ def check_lines(r, lines, model):
 
 
 def run(r):
-    r.rule = ("random shapes of the serde data model to depth 4 with boundary-heavy data (+ hand-picked anchors), cross-shape deserialisation, "
+    r.rule = ("random shapes of the serde data model to depth 4 with boundary-heavy data (quiet NaNs with sign and payload, exact-tie doubles, float map keys, long and non-ASCII names) "
+              "+ hand-picked anchors + wide composites (structs / variants / maps with more than 12 entries, 1500-element sequences, 3000 bytes), each also through serde's buffering read path "
+              "(untagged by value / by reference after a failed alternative, flatten, internally and adjacently tagged), through Serde<T> arguments in 12 call forms, and printed as JSON against "
+              "serde_json's own JSON of the datum; values read back into `Value` (owned, borrowed, as a field, from JSON text, from 40 primitive deserializers); serde's impls for std types "
+              "(IpAddr / SocketAddr, Duration / SystemTime, Result / Bound / Range*, NonZero / Wrapping / Reverse / Cell / RefCell / PhantomData, sets / deques / lists / arrays / 12-tuples / CString / PathBuf); "
+              "threads whose handle counter was advanced to 0 .. 131073 (thorough 2^24) before; the tojson post-processing on every 1- and 2-byte ASCII prefix x distance {0,1,7} (thorough 0..17) "
+              "x 4 special bytes x 2 tails and every 1-byte prefix x distance 0..70 (thorough 130), outputs hashed against the model's; both map implementations (BTreeMap and IndexMap builds) in every tier; "
+              "cross-shape deserialisation, "
               "13 derived types, embedded values in 22 contexts x 18 kinds (incl. shapes for which serde buffers several embedded values: flatten + enum struct/tuple variants, internally tagged wrappers, a buffering adapter), the handle registry with up to 40 handles alive at once resolved in creation / reverse / random order, with omissions and repeats (fresh thread per case), lazily produced sequences/maps of 24 kinds (one-shot iterators, "
               "make_iterable adapters, custom Objects with every Enumerator answer) at top level and nested through every JSON mode, a "
               "shape-recording serializer (serde length contract) and as deserialisation sources, 50 template-built lazy expressions, "
               "objects lying about their length (model tie only), invalid values, nesting to depth 200, representation/attribute variants of derived types "
               "(tagged/untagged enums, flatten, renames, Cow, serde_json::Value, Serde<T> arguments), conversions that fail or panic midway, "
-              "JSON texts of random values/strings in 11 modes (tojson compact/indents/in html/Expression API, auto-escape by template name, "
-              "autoescape block into an io::Write, serde_json::to_string / to_string_pretty / to_value directly) "
+              "JSON texts of random values/strings in 20 modes (tojson compact/indents/in html/Expression API, auto-escape by template name, "
+              "autoescape block into an io::Write, serde_json::to_string / to_string_pretty / to_value directly) and 9 more entry points (escape filter under JSON auto-escaping, .yaml / .json.j2 names, "
+              "a user formatter delegating to the default one, an auto-escape callback, tojson(false) / tojson(indent=true) / tojson(8)) "
               "(+ every single character below U+0100 and the separator/surrogate-neighbour characters); a case is non-trivial when the "
               "shape/value is composite")
     r.assumptions = [
@@ -358,37 +470,47 @@ def run(r):
         "iterators behind Enumerator::Iter/RevIter report honest size hints (lower <= count <= upper) and Object::enumerator_len is not overridden with a wrong answer (the serde length contract theorem is stated for such objects)",
         "lazily produced values used as keys of an ordered map and plain objects as deserialisation sources are out of scope",
         "a safe string printed directly under JSON auto-escaping is written verbatim (safe = already escaped by definition)",
+        "quiet f32 NaNs keep sign and payload through `as f64` / `as f32` (x86-64 / aarch64 hardware conversions; compared bit-exactly)",
+        "serde's ContentDeserializer differs from `de` on the buffered copy only by accepting more (unit / unit struct from an empty map or sequence, struct variant from a sequence)",
+        "zero-copy targets (&str, &[u8]) and 128-bit integer targets are refused by the deserializer (visit_str / visit_bytes only; deserialize_i128 / _u128 are the trait's unsupported defaults): outside the statement, recorded (derivedx Borrowed / Wide)",
     ]
-    r.regen_tables(["TOJSON_REPLACEMENTS", "TOJSON_TRUE_INDENT", "VALUE_SERIALIZE_LENGTHS", "ENUMERATOR_QUERY_LEN", "SERDE_JSON_COMPOUND", "SERIALIZATION_FLAG_GUARD", "VALUE_HANDLE_REGISTRY", "JINJA_JSON_SEPARATORS", "VALUE_HANDLE_MARKER", "SERDE_JSON_ESCAPE"])
+    r.regen_tables(["SERDE_METHODS", "SERDE_ARMS", "SERDE_ARGTYPE", "TOJSON_REPLACEMENTS", "TOJSON_TRUE_INDENT", "VALUE_SERIALIZE_LENGTHS", "ENUMERATOR_QUERY_LEN", "SERDE_JSON_COMPOUND", "SERIALIZATION_FLAG_GUARD", "VALUE_HANDLE_REGISTRY", "JINJA_JSON_SEPARATORS", "VALUE_HANDLE_MARKER", "SERDE_JSON_ESCAPE"])
     r.lean_prove("MJ.Props.C16", "MJ/Audit/C16.lean", extra_targets=["drive_c16"])
-    exe = r.cargo_build("c16")
-    if exe is None:
-        return
-    rc, out, err = r.harness(exe, ["gen", r.tier])
-    if rc != 0:
-        r.broken.append(f"harness c16 exited {rc}: {err[-300:]}")
-        return
-    lines = out.splitlines()
-    model = r.driver("drive_c16", out)
-    if model is None or len(model) != len(lines):
-        r.broken.append("model driver output does not line up with the harness cases")
-        model = None
-    check_lines(r, lines, model)
-    # the other map implementation (IndexMap): same oracle, insertion order must then be reproduced exactly
-    if r.tier == "thorough":
-        exe2 = r.cargo_build("c16", features=["preserve_order"])
-        if exe2 is not None:
-            rc, out2, err = r.harness(exe2, ["gen", "quick"])
-            if rc != 0:
-                r.broken.append(f"harness c16 (preserve_order) exited {rc}: {err[-300:]}")
-            else:
-                lines2 = out2.splitlines()
-                model2 = r.driver("drive_c16", out2, args=("index",))
-                if model2 is None or len(model2) != len(lines2):
-                    r.broken.append("model driver output does not line up (preserve_order)")
-                    model2 = None
-                check_lines(r, lines2, model2)
-                r.extra["preserve_order_cases"] = len(lines2)
+    # both map implementations are built and run side by side: the default build (BTreeMap) at the tier's size,
+    # the `preserve_order` build (IndexMap: insertion order must then be reproduced exactly) at quick size
+    from concurrent.futures import ThreadPoolExecutor
+
+    def one(features, tier):
+        exe = r.cargo_build("c16", features=features) if features else r.cargo_build("c16")
+        if exe is None:
+            return None
+        rc, out, err = r.harness(exe, ["gen", tier])
+        if rc != 0:
+            r.broken.append(f"harness c16 {features or ''} exited {rc}: {err[-300:]}")
+            return None
+        return out
+
+    def with_model(out, dargs, what):
+        if out is None:
+            return None
+        lines = out.splitlines()
+        model = r.driver("drive_c16", out, args=dargs)
+        if model is None or len(model) != len(lines):
+            r.broken.append("model driver output does not line up with the harness cases" + what)
+            model = None
+        return lines, model
+
+    with ThreadPoolExecutor(max_workers=2) as ex:
+        main = ex.submit(one, None, r.tier)
+        po = ex.submit(one, ["preserve_order"], "quick")
+        main, po = main.result(), po.result()
+    main = with_model(main, (), "")
+    po = with_model(po, ("index",), " (preserve_order)")
+    if main is not None:
+        check_lines(r, main[0], main[1])
+    if po is not None:
+        check_lines(r, po[0], po[1])
+        r.extra["preserve_order_cases"] = len(po[0])
 
 
 def replay(r, path):
